@@ -61,12 +61,17 @@ def write_cfg(ctx, name, consts, invariants, export=True):
     return fn
 
 
-_RE_VIOL = re.compile(r'<<\s*"VIOL",\s*"([^"]+)",\s*(\d+),(.*?)>>\s*(?=<<\s*"(?:VIOL|ACCEPTED|STUCK)")')
+_RE_VIOL = re.compile(r'<<\s*"VIOL",\s*"([^"]+)",\s*(\d+),\s*"((?:[^"\\]|\\.)*)"\s*>>')
 
 
 def viols_of(res):
+    """<<"VIOL", signature, event index, detail string>> tuples; TLC may wrap them over several lines
+    and interleave progress lines, so the whole output is searched"""
     txt = res["output"].replace("\n", " ")
-    return [(m.group(1), int(m.group(2)), " ".join(m.group(3).split())[:600]) for m in _RE_VIOL.finditer(txt)]
+    out = [(m.group(1), int(m.group(2)), " ".join(m.group(3).split())[:600]) for m in _RE_VIOL.finditer(txt)]
+    if len(out) != len(re.findall(r'<<\s*"VIOL"', txt)):
+        raise C.ToolError("could not parse every VIOL line of the TLC output (a violation must never be dropped silently)")
+    return out
 
 
 def segment_of(events, idx):
